@@ -1,14 +1,17 @@
-"""Per-property configuration of ./check (which Lean targets hold the obligations, which
-regenerated Gen files the property depends on, whether there is a harness plug-in)."""
+"""Per-property configuration of ./check, loaded from props.d/Cxx.json:
+  gen          regenerated Gen files the property's theorems depend on
+  lean_targets lake targets holding the obligations (default SerfProofs.Props.Cxx)
+  theorems     [[lean file, theorem-name prefix], …] whose axioms are audited (default Props/Cxx.lean, "Cxx_")
+  harness      false when there is no correspondence plug-in (obligations only)
+  assumptions, trusted, rule   copied into the evidence
+  manifest     {text, note, technique, design_ref} for MANIFEST.json (see ./mkall)
+"""
+import glob, json, os
 
-PROPS = {
-    "C19": {
-        "gen": ["Lamport"],
-        "lean_targets": ["SerfProofs.Props.C19"],
-        "theorems": [("SerfProofs/Props/C19.lean", "C19_"), ("SerfProofs/Lemmas/Lamport.lean", "gen_")],
-        "assumptions": [
-            "sync/atomic Load/Add/CompareAndSwap on uint64 are single atomic actions; only sequentially consistent interleavings",
-            "NoOverflow: no increment at 2^64-1 and no Witness(2^64-1) (the excluded input is the recorded finding witness-max)",
-        ],
-    },
-}
+PROPS = {}
+for _p in sorted(glob.glob(os.path.join(os.path.dirname(os.path.abspath(__file__)), "props.d", "C*.json"))):
+    _c = json.load(open(_p))
+    _c["theorems"] = [tuple(t) for t in _c.get("theorems", [])] or None
+    if _c["theorems"] is None:
+        del _c["theorems"]
+    PROPS[os.path.basename(_p)[:-5]] = _c
